@@ -734,3 +734,24 @@ V("fix 3574d6b undone: no packing list for a history without file records", "C18
     packing_list = session.new_hash_lists[collection_history]
 
 """, "", "R18.10")
+V("fix 4239593 undone: info -sf looks a file of a nested history up in the root history", "C19", C, """        history, history_relative_path = existing_history.find_history_for_path(relative_path)
+        for hash_list in history.hash_lists:
+            media_hash = hash_list.find_media_hash_for_path(history_relative_path)
+""", """        history, history_relative_path = existing_history, relative_path
+        for hash_list in history.hash_lists:
+            media_hash = hash_list.find_media_hash_for_path(history_relative_path)
+""", "R19.3")
+V("fix d171ab3 undone: the previous name is listed once per hash entry", "C19", C, """                    )
+            # follow a renamed file to its former name once per generation, not once per hash entry of the record
+            if logger.verbose_logging == True and media_hash.previous_path and history_relative_path == media_hash.path:
+                logger.info(" In previous generations the file was named: {}\\n\\n".format(media_hash.previous_path))
+                info_for_single_file(
+                    root_path, verbose, [os.path.join(history.get_root_path(), media_hash.previous_path)]
+                )
+""", """                    )
+                if logger.verbose_logging == True and media_hash.previous_path and history_relative_path == media_hash.path:
+                    logger.info(" In previous generations the file was named: {}\\n\\n".format(media_hash.previous_path))
+                    info_for_single_file(
+                        root_path, verbose, [os.path.join(history.get_root_path(), media_hash.previous_path)]
+                    )
+""", "R19.9")
